@@ -77,6 +77,7 @@ type Sched struct {
 	timers   []*vtimer
 	Fail     []Failure // invariant failures raised during the run
 	userData any
+	enBuf    []*Thread
 	rng      uint64
 }
 
@@ -94,7 +95,8 @@ func New(prefix []int, opt Options) *Sched {
 	if opt.Start.IsZero() {
 		opt.Start = baseTime
 	}
-	s := &Sched{Opt: opt, choices: prefix, closed: map[uintptr]bool{}, mainGate: make(chan struct{}), clock: opt.Start}
+	s := &Sched{Opt: opt, choices: prefix, closed: map[uintptr]bool{}, mainGate: make(chan struct{}), clock: opt.Start,
+		Choices: make([]int, 0, 64), Points: make([]ChoicePoint, 0, 64), enBuf: make([]*Thread, 0, 8), threads: make([]*Thread, 0, 8)}
 	S = s
 	return s
 }
@@ -207,6 +209,8 @@ func (t *Thread) enabledOrdinary(s *Sched) bool {
 // enabledSet returns the enabled threads in canonical order: the running thread first if
 // still enabled, then ascending ids. Quiescence waiters are enabled only if nobody else is.
 func (s *Sched) enabledSet(self *Thread, selfAlive bool) (en []*Thread, curEnabled bool) {
+	en = s.enBuf[:0]
+	defer func() { s.enBuf = en[:0] }()
 	if selfAlive && self.enabledOrdinary(s) {
 		en = append(en, self)
 		curEnabled = true
